@@ -2,7 +2,7 @@
 
 Bounded-exhaustive exploration (no sampling): the full product (s0, s1, mu-ladder, M, decision) for
 `ook.theory_BER`, `ppm.theory_BER`, the 'estimator' modes of `BER_analizer`, `THRESHOLD_EST` and
-`utils.optimum_threshold`; a deviation lattice (k <= 2 quick, k <= 3 thorough, two baselines) over the
+`utils.optimum_threshold`; a deviation lattice (k <= 2 quick, k <= 4 thorough, two baselines) over the
 receiver-model parameters, with the full P_avg ladder at every lattice point, for `utils.p_ase`,
 `average_voltages`, `noise_variances` and `utils.theory_BER`; and a small product for the cross-device
 clause (variances captured from the RNG requests of `PD`, ASE scale captured from `EDFA`).
@@ -400,8 +400,8 @@ def estimators_case(case):
                 V(f'{kind}.THRESHOLD_EST:outside-[mu0,mu1]', f'mu0={mu0} mu1={mu1}: threshold {th!r}')
             else:
                 fo = fobj(min(max(th - mu0, 0.0), d))
-                # rounding of (th - mu0): df <= |f'| * rnd <= f * (z/s) * rnd, z <= 20/s_min-normalised; use 1e-9 + explicit term
-                slack = gm * (RT_GRID + 25 * rnd / min(s0, s1)) + ah
+                # rounding of the shifted grid points / of (th - mu0): |dQ/Q| <= |dlnQ/dz| * rnd/s with |dlnQ/dz| < 40 wherever Q(z) > 0 in doubles
+                slack = gm * (RT_GRID + 40 * rnd / min(s0, s1)) + ah
                 if fo > gm + slack:
                     V(f'{kind}.THRESHOLD_EST:not-a-grid-minimiser', f'mu0={mu0} mu1={mu1}: error integral at returned threshold {fo!r} > 1000-point grid minimum {gm!r}')
             if kind == 'ook' and s0 == s1:
@@ -420,7 +420,7 @@ def estimators_case(case):
                         if not close(v, cf, RT_CURVE, AT_SOFT):
                             V('ppm.BER_analizer:estimator:soft:M=2:Q(mu/sqrt(s0^2+s1^2))', f'mu0={mu0} mu1={mu1}: {v!r}, closed form {cf!r}')
                 else:
-                    slack = gm * scale * (RT_GRID + 25 * rnd / min(s0, s1)) + ah
+                    slack = gm * scale * (RT_GRID + 40 * rnd / min(s0, s1)) + ah
                     if not np.isfinite(v) or v < tm * scale * (1 - RT_GRID) - slack or v > gm * scale + slack:
                         V(f'{kind}.BER_analizer:estimator:{dec}:outside-grid-band', f'mu0={mu0} mu1={mu1}: {v!r} not in [{tm*scale!r}, {gm*scale!r}]')
             if mu0 == 0.0:
@@ -443,7 +443,7 @@ def estimators_case(case):
                     if dec == 'soft':
                         ok = close(v, base[dec], RT_CURVE, 2 * AT_SOFT)
                     else:
-                        ok = close(v, base[dec], RT_GRID + 25 * rnd / min(s0, s1), ah)
+                        ok = close(v, base[dec], RT_GRID + 40 * rnd / min(s0, s1), ah)
                     if not ok:
                         V(f'{kind}.BER_analizer:estimator:{dec}:not-shift-invariant', f'mu0={mu0}: {v!r}, at mu0=0: {base[dec]!r}')
             obs.append((th,) + tuple(bers.values()))
@@ -792,7 +792,7 @@ def devices_cases(tier):
     for amp in (False, True):
         for BW, r, R_L, T, Fn, P, ER, m in itertools.product(BWs, rs, RLs, Ts, Fns, Ps, ERs, mods):
             if amp:
-                if tier == 'quick' and not (BW == 5e9 and P == -25.0 and m == 0):
+                if not (BW == 5e9 and P in (-25.0, -50.0, 0.0) and m == 0) or (tier == 'quick' and P != -25.0):
                     continue
                 out.append(('pd', BW, r, R_L, T, Fn, P, ER, m, True, 20.0, 5.0, 1550e-9))
             else:
@@ -873,7 +873,7 @@ REGRESS = [('avgV-unamplified-defaults',), ('nv-unamplified-BW_opt-default',), (
 def run(ctx):
     tier = ctx.tier
     sg_, lad = sigmas(tier), ladder(tier)
-    k = 2 if ctx.quick else 3
+    k = 2 if ctx.quick else 4
     ctx.rule(f'C13: (0) minimal inputs of DESIGN 8 #8-#12; (1) full product s0,s1 in {sg_} x mu/max(s0,s1) in {lad} x '
              f'[OOK | PPM M in {MS} x (hard, soft)] for ook/ppm.theory_BER incl. vector calls; (2) the same product x offsets mu0 in {OFFSETS} '
              f'for THRESHOLD_EST, BER_analizer("estimator") and utils.optimum_threshold; (3) receiver model: every point within {k} deviations of two '
